@@ -753,7 +753,7 @@ def check(case, _runs=3):
                  for v in out.violations):
         out.violate('decode/exception/to_parameters/%s' % type(e).__name__,
                     '%s: %r' % (tag, e))
-    if np.all(np.isfinite(rw)):
+    if not np.any(np.isnan(rw)):
       try:
         trials = vb.best_candidates_to_trials(res, conv)
         if len(trials) != count * par:
